@@ -84,55 +84,59 @@ theorem linear_ivp_unique₃ {s : Set ℝ} {a b : ℝ} (hab : Icc a b ⊆ s) (a0
 both routes and continuous coefficients (leading coefficient and `g'` non-vanishing), the callable returned
 through an admissible transform has, at every point of `[a, b]`, exactly the rows of the directly computed one. -/
 theorem through_transform_eq_direct : through_transform_eq_direct_full := by
-  intro T s a b hT hab hne c0 c1 c2 c3 f hc0 hc1 hc2 hc3 ha Y0 Y1 Y2 Z0 Z1 Z2 d0 d1 d2 hY hZ hY0 hZ0
-  by_cases hle : a ≤ b
-  · have has : a ∈ s := hab (left_mem_Icc.mpr hle)
-    obtain ⟨y0, y1, y2, y3, z3, hret, hy, hz, hya, hza⟩ :=
-      through_transform_eq_direct_partial hT has hne c0 c1 c2 c3 f ha Y0 Y1 Y2 Z0 Z1 Z2 d0 d1 d2 hY hZ hY0 hZ0
-    rw [← hza] at hya
-    simp only [List.cons.injEq, and_true] at hya
-    have := linear_ivp_unique₃ hab (fun x => evalCoeff x c0) (fun x => evalCoeff x c1) (fun x => evalCoeff x c2)
-      (fun x => evalCoeff x c3) f hc0 hc1 hc2 hc3 (fun x hx => ha x (hab hx)) y0 y1 y2 y3 Z0 Z1 Z2 z3 hy hz
-      hya.1 hya.2.1 hya.2.2
-    intro x hx
-    obtain ⟨e0, e1, e2⟩ := this x hx
-    rw [hret x, e0, e1, e2]
-  · intro x hx
-    exact absurd (hx.1.trans hx.2) hle
+  intro T s a b hT hab hne hda hle hdb c0 c1 c2 c3 f hc0 hc1 hc2 hc3 ha solve Y0 Y1 Y2 Z0 Z1 Z2 d0 d1 d2 hsolve hY hZ
+    hY0 hZ0
+  have has : a ∈ s := hab (left_mem_Icc.mpr hle)
+  obtain ⟨y0, y1, y2, y3, z3, hret, hy, hz, hya, hza⟩ :=
+    through_transform_eq_direct_partial (b := b) hT has hne hda (hda.trans hle) (hle.trans hdb) hdb c0 c1 c2 c3 f ha
+      solve Y0 Y1 Y2 Z0 Z1 Z2 d0 d1 d2 hsolve hY hZ hY0 hZ0
+  rw [← hza] at hya
+  simp only [List.cons.injEq, and_true] at hya
+  have := linear_ivp_unique₃ hab (fun x => c0.at x) (fun x => c1.at x) (fun x => c2.at x)
+    (fun x => c3.at x) f hc0 hc1 hc2 hc3 (fun x hx => ha x (hab hx)) y0 y1 y2 y3 Z0 Z1 Z2 z3 hy hz
+    hya.1 hya.2.1 hya.2.2
+  intro x hx
+  obtain ⟨e0, e1, e2⟩ := this x hx
+  rw [hret x, e0, e1, e2]
 
 /-- Non-vacuity of `through_transform_eq_direct`: `g = exp`, `[a, b] = [0, 1]`, third-order ODE with right-hand side
 `8e^{2x}` and leading coefficient 1, `y(0) = 1, y'(0) = 2, y''(0) = 4`; through the transform the integrator's exact
 output is `r², 2r, 2`, directly it is `e^{2x}, 2e^{2x}, 4e^{2x}`; all hypotheses hold, hence the returned rows
 coincide on `[0, 1]`. -/
 example : ∀ x ∈ Icc (0 : ℝ) 1,
-    returnedCallable expT 3 false (fun r => [r ^ 2, 2 * r, 2]) x
+    transformSolutionToOriginalDomain (okResult fun r => [r ^ 2, 2 * r, 2]) expT false 3 x
       = some [Real.exp (2 * x), 2 * Real.exp (2 * x), 4 * Real.exp (2 * x)] := by
   have hd : ∀ x : ℝ, HasDerivAt (fun t => Real.exp (2 * t)) (2 * Real.exp (2 * x)) x := fun x => by
     simpa [mul_comm] using ((hasDerivAt_id x).const_mul (2 : ℝ)).exp
+  have hdm : expT.domain = (-1000, 1000) := rfl
+  obtain ⟨k00, k01, k10, k11⟩ := derivMatrixAt_2 expT 0
   refine through_transform_eq_direct expT Set.univ 0 1 expT_admissible (Set.subset_univ _)
-    (fun x _ => (Real.exp_pos x).ne') (.const 0) (.const 0) (.const 0) (.const 1) (fun x => 8 * Real.exp (2 * x))
-    (by simp [evalCoeff]; exact continuousOn_const) (by simp [evalCoeff]; exact continuousOn_const)
-    (by simp [evalCoeff]; exact continuousOn_const) (by simp [evalCoeff]; exact continuousOn_const)
-    (fun x _ => by simp [evalCoeff])
+    (fun x _ => (Real.exp_pos x).ne') (by rw [hdm]; norm_num) (by norm_num) (by rw [hdm]; norm_num)
+    (.const 0) (.const 0) (.const 0) (.const 1) (fun x => 8 * Real.exp (2 * x))
+    (by simp [Coeff.at]; exact continuousOn_const) (by simp [Coeff.at]; exact continuousOn_const)
+    (by simp [Coeff.at]; exact continuousOn_const) (by simp [Coeff.at]; exact continuousOn_const)
+    (fun x _ => by simp [Coeff.at]) forwardSolve
     (fun r => r ^ 2) (fun r => 2 * r) (fun _ => 2)
-    (fun x => Real.exp (2 * x)) (fun x => 2 * Real.exp (2 * x)) (fun x => 4 * Real.exp (2 * x)) 1 2 4 ?_ ?_ ?_ ?_
+    (fun x => Real.exp (2 * x)) (fun x => 2 * Real.exp (2 * x)) (fun x => 4 * Real.exp (2 * x)) 1 2 4
+    (forwardSolve_solves expT 0 (Real.exp_pos _).ne' 2 4 0).2.1 ?_ ?_ ?_ ?_
   · intro x _
     refine ⟨2 * expT.transform x, 2, 0, ?_, by simpa using hasDerivAt_pow 2 (expT.transform x),
       by simpa using (hasDerivAt_id (expT.transform x)).const_mul (2 : ℝ), hasDerivAt_const _ _⟩
-    rw [odeFuncTransformed_3]
+    rw [ivpFunc_transformed_3]
     have e2 : Real.exp (2 * x) = Real.exp x ^ 2 := by rw [← Real.exp_nat_mul]; norm_num
     have hpos := (Real.exp_pos x).ne'
-    simp only [expT, Real.log_exp, evalCoeff, coeffB_3_0, coeffB_3_1, coeffB_3_2, coeffB_3_3, npow_eq_pow,
+    simp only [expT, Real.log_exp, Coeff.at, coeffB_3_0, coeffB_3_1, coeffB_3_2, coeffB_3_3, npow_eq_pow,
       Nat.cast_zero, Nat.cast_ofNat, e2, Option.some.injEq, List.cons.injEq, and_true, true_and]
     field_simp
     ring
   · intro x _
     refine ⟨2 * Real.exp (2 * x), 4 * Real.exp (2 * x), 8 * Real.exp (2 * x), ?_, hd x,
       ((hd x).const_mul 2).congr_deriv (by ring), ((hd x).const_mul 4).congr_deriv (by ring)⟩
-    rw [odeFuncDirect_3]
-    simp [evalCoeff]
-  · obtain ⟨k00, k01, k10, k11⟩ := derivMatrixAt_2 expT 0
-    simp only [ivpInitial, forwardSolve_two, k00, k10, k11]
+    rw [ivpFunc_direct_3]
+    simp [Coeff.at]
+  · rw [ivpTransformSetup_eq forwardSolve expT 0 1 1 [2, 4] 3 (by omega) (by rw [hdm]; norm_num)
+      (by rw [hdm]; norm_num) (by rw [hdm]; norm_num) (by rw [hdm]; norm_num)]
+    simp only [Nat.add_one_sub_one, forwardSolve_two, k00, k10, k11]
     simp only [expT, Real.exp_zero]
     norm_num
   · simp
@@ -141,12 +145,12 @@ example : ∀ x ∈ Icc (0 : ℝ) 1,
 
 /-- Direct branch, order 1. -/
 theorem direct_contract_gives_solution₁ {s : Set ℝ} (c0 c1 : Coeff ℝ) (f : ℝ → ℝ)
-    (ha : ∀ x ∈ s, evalCoeff x c1 ≠ 0) (Y0 : ℝ → ℝ)
-    (hsol : ∀ x ∈ s, ∃ D0, odeFuncDirect [c0, c1] f x [Y0 x] = some [D0] ∧ HasDerivAt Y0 D0 x) :
-    ∀ x ∈ s, ∃ y1, HasDerivAt Y0 y1 x ∧ evalCoeff x c0 * Y0 x + evalCoeff x c1 * y1 = f x := by
+    (ha : ∀ x ∈ s, c1.at x ≠ 0) (Y0 : ℝ → ℝ)
+    (hsol : ∀ x ∈ s, ∃ D0, ivpFunc [c0, c1] none f x [Y0 x] = some [D0] ∧ HasDerivAt Y0 D0 x) :
+    ∀ x ∈ s, ∃ y1, HasDerivAt Y0 y1 x ∧ c0.at x * Y0 x + c1.at x * y1 = f x := by
   intro x hx
   obtain ⟨D0, hD, h0⟩ := hsol x hx
-  rw [odeFuncDirect_1] at hD
+  rw [ivpFunc_direct_1] at hD
   simp only [Option.some.injEq, List.cons.injEq, and_true] at hD
   subst hD
   refine ⟨_, h0, ?_⟩
@@ -156,14 +160,14 @@ theorem direct_contract_gives_solution₁ {s : Set ℝ} (c0 c1 : Coeff ℝ) (f :
 
 /-- Direct branch, order 2. -/
 theorem direct_contract_gives_solution₂ {s : Set ℝ} (c0 c1 c2 : Coeff ℝ) (f : ℝ → ℝ)
-    (ha : ∀ x ∈ s, evalCoeff x c2 ≠ 0) (Y0 Y1 : ℝ → ℝ)
-    (hsol : ∀ x ∈ s, ∃ D0 D1, odeFuncDirect [c0, c1, c2] f x [Y0 x, Y1 x] = some [D0, D1] ∧
+    (ha : ∀ x ∈ s, c2.at x ≠ 0) (Y0 Y1 : ℝ → ℝ)
+    (hsol : ∀ x ∈ s, ∃ D0 D1, ivpFunc [c0, c1, c2] none f x [Y0 x, Y1 x] = some [D0, D1] ∧
       HasDerivAt Y0 D0 x ∧ HasDerivAt Y1 D1 x) :
     ∀ x ∈ s, HasDerivAt Y0 (Y1 x) x ∧ ∃ y2, HasDerivAt Y1 y2 x ∧
-      evalCoeff x c0 * Y0 x + evalCoeff x c1 * Y1 x + evalCoeff x c2 * y2 = f x := by
+      c0.at x * Y0 x + c1.at x * Y1 x + c2.at x * y2 = f x := by
   intro x hx
   obtain ⟨D0, D1, hD, h0, h1⟩ := hsol x hx
-  rw [odeFuncDirect_2] at hD
+  rw [ivpFunc_direct_2] at hD
   simp only [Option.some.injEq, List.cons.injEq, and_true] at hD
   obtain ⟨rfl, rfl⟩ := hD
   refine ⟨h0, _, h1, ?_⟩
@@ -266,58 +270,63 @@ theorem linear_ivp_unique₂ {s : Set ℝ} {a b : ℝ} (hab : Icc a b ⊆ s) (a0
   simp only [D, Prod.mk_eq_zero, sub_eq_zero] at this
   exact this
 
-/-- **Through a transform = directly, order 1.** -/
+/-- **Through a transform = directly, order 1** (the initial-data mapping of a first-order problem is the identity:
+`ivpTransformSetup … [d0] … = (…, [d0])`, see `ivpTransformSetup_eq`). -/
 theorem through_transform_eq_direct₁ {T : TransformFns ℝ} {s : Set ℝ} {a b : ℝ} (hT : Admissible T s)
     (hab : Icc a b ⊆ s) (hne : ∀ x ∈ s, T.deriv x ≠ 0) (c0 c1 : Coeff ℝ) (f : ℝ → ℝ)
-    (hc0 : ContinuousOn (fun x => evalCoeff x c0) (Icc a b)) (hc1 : ContinuousOn (fun x => evalCoeff x c1) (Icc a b))
-    (ha : ∀ x ∈ s, evalCoeff x c1 ≠ 0) (Y0 Z0 : ℝ → ℝ) (d0 : ℝ)
-    (hY : ∀ x ∈ s, ∃ D0, odeFuncTransformed [c0, c1] T f (T.transform x) [Y0 (T.transform x)] = some [D0] ∧
+    (hc0 : ContinuousOn (fun x => c0.at x) (Icc a b)) (hc1 : ContinuousOn (fun x => c1.at x) (Icc a b))
+    (ha : ∀ x ∈ s, c1.at x ≠ 0) (Y0 Z0 : ℝ → ℝ) (d0 : ℝ)
+    (hY : ∀ x ∈ s, ∃ D0, ivpFunc [c0, c1] (some T) f (T.transform x) [Y0 (T.transform x)] = some [D0] ∧
       HasDerivAt Y0 D0 (T.transform x))
-    (hZ : ∀ x ∈ s, ∃ D0, odeFuncDirect [c0, c1] f x [Z0 x] = some [D0] ∧ HasDerivAt Z0 D0 x)
-    (hY0 : ivpInitial (derivMatrixAt T a 0) [d0] = some [Y0 (T.transform a)]) (hZ0 : Z0 a = d0) :
-    ∀ x ∈ Icc a b, returnedCallable T 1 false (fun r => [Y0 r]) x = some [Z0 x] := by
+    (hZ : ∀ x ∈ s, ∃ D0, ivpFunc [c0, c1] none f x [Z0 x] = some [D0] ∧ HasDerivAt Z0 D0 x)
+    (hY0 : Y0 (T.transform a) = d0) (hZ0 : Z0 a = d0) :
+    ∀ x ∈ Icc a b, transformSolutionToOriginalDomain (okResult fun r => [Y0 r]) T false 1 x = some [Z0 x] := by
   obtain ⟨y0, y1, hret, hy⟩ := transformed_contract_gives_solution₁ hT hne c0 c1 f ha Y0 hY
   have hdir := direct_contract_gives_solution₁ c0 c1 f ha Z0 hZ
   choose! z1 hz1 using hdir
   intro x hx
   have hle : a ≤ b := hx.1.trans hx.2
   have e0 : y0 a = Z0 a := by
-    have h := hret a
-    simp only [returnedCallable, Bool.false_eq_true, ↓reduceIte, Nat.sub_self] at h
-    simp only [ivpInitial, forwardSolve_nil, Option.some.injEq, List.cons.injEq, and_true] at hY0
-    rw [← hY0] at h
-    simp only [backTransform, matVec_nil, Option.some.injEq, List.cons.injEq, and_true] at h
-    rw [← h, hZ0]
-  have := linear_ivp_unique₁ hab (fun x => evalCoeff x c0) (fun x => evalCoeff x c1) f hc0 hc1
+    have h := (hret a).symm.trans (returned_rows₁ T (okResult fun r => [Y0 r]) a (Y0 (T.transform a)) rfl)
+    simp only [Option.some.injEq, List.cons.injEq, and_true] at h
+    rw [h, hY0, hZ0]
+  have := linear_ivp_unique₁ hab (fun x => c0.at x) (fun x => c1.at x) f hc0 hc1
     (fun x hx => ha x (hab hx)) y0 y1 Z0 z1 hy hz1 e0 x hx
   rw [hret x, this]
 
 /-- **Through a transform = directly, order 2.** -/
 theorem through_transform_eq_direct₂ {T : TransformFns ℝ} {s : Set ℝ} {a b : ℝ} (hT : Admissible T s)
     (hab : Icc a b ⊆ s) (hne : ∀ x ∈ s, T.deriv x ≠ 0) (c0 c1 c2 : Coeff ℝ) (f : ℝ → ℝ)
-    (hc0 : ContinuousOn (fun x => evalCoeff x c0) (Icc a b)) (hc1 : ContinuousOn (fun x => evalCoeff x c1) (Icc a b))
-    (hc2 : ContinuousOn (fun x => evalCoeff x c2) (Icc a b))
-    (ha : ∀ x ∈ s, evalCoeff x c2 ≠ 0) (Y0 Y1 Z0 Z1 : ℝ → ℝ) (d0 d1 : ℝ)
-    (hY : ∀ x ∈ s, ∃ D0 D1, odeFuncTransformed [c0, c1, c2] T f (T.transform x)
+    (hc0 : ContinuousOn (fun x => c0.at x) (Icc a b)) (hc1 : ContinuousOn (fun x => c1.at x) (Icc a b))
+    (hc2 : ContinuousOn (fun x => c2.at x) (Icc a b))
+    (ha : ∀ x ∈ s, c2.at x ≠ 0) (Y0 Y1 Z0 Z1 : ℝ → ℝ) (d0 d1 : ℝ)
+    (hY : ∀ x ∈ s, ∃ D0 D1, ivpFunc [c0, c1, c2] (some T) f (T.transform x)
         [Y0 (T.transform x), Y1 (T.transform x)] = some [D0, D1] ∧
       HasDerivAt Y0 D0 (T.transform x) ∧ HasDerivAt Y1 D1 (T.transform x))
-    (hZ : ∀ x ∈ s, ∃ D0 D1, odeFuncDirect [c0, c1, c2] f x [Z0 x, Z1 x] = some [D0, D1] ∧
+    (hZ : ∀ x ∈ s, ∃ D0 D1, ivpFunc [c0, c1, c2] none f x [Z0 x, Z1 x] = some [D0, D1] ∧
       HasDerivAt Z0 D0 x ∧ HasDerivAt Z1 D1 x)
-    (hY0 : ivpInitial (derivMatrixAt T a 1) [d0, d1] = some [Y0 (T.transform a), Y1 (T.transform a)])
+    (hda : T.domain.1 ≤ a) (hdb : b ≤ T.domain.2) (solve : Mat ℝ → List ℝ → List ℝ)
+    (hsolve : matVec (derivMatrixAt T a 1) (solve (derivMatrixAt T a 1) [d1]) = [d1])
+    (hY0 : ivpTransformSetup solve noInf [a, b] [d0, d1] T 2
+      = .ok ([T.transform a, T.transform b], [Y0 (T.transform a), Y1 (T.transform a)]))
     (hZ0 : [Z0 a, Z1 a] = [d0, d1]) :
-    ∀ x ∈ Icc a b, returnedCallable T 2 false (fun r => [Y0 r, Y1 r]) x = some [Z0 x, Z1 x] := by
+    ∀ x ∈ Icc a b, transformSolutionToOriginalDomain (okResult fun r => [Y0 r, Y1 r]) T false 2 x = some [Z0 x, Z1 x] := by
   obtain ⟨y0, y1, y2, hret, hy⟩ := transformed_contract_gives_solution₂ hT hne c0 c1 c2 f ha Y0 Y1 hY
   have hdir := direct_contract_gives_solution₂ c0 c1 c2 f ha Z0 Z1 hZ
   choose! z2 hz2 using fun x hx => (hdir x hx).2
   intro x hx
   have hle : a ≤ b := hx.1.trans hx.2
-  have has : a ∈ s := hab (left_mem_Icc.mpr hle)
-  have h2 := (ivp_initial_conditions T a a (hne a has) d0 d1 0).2.1 (fun r => [Y0 r, Y1 r])
-    (T.transform a, T.transform a) [Y0 (T.transform a), Y1 (T.transform a)] (by simp [ivpSetup, hY0]) rfl
-  have e := Option.some.inj ((hret a).symm.trans h2.2)
+  obtain ⟨init, h1, h2⟩ := ivp_initial_conditions_of_contract solve T a b hda (hda.trans hle) (hle.trans hdb) hdb
+    d0 [d1] (by simp) hsolve
+  have h1' : ivpTransformSetup solve noInf [a, b] [d0, d1] T 2 = .ok ([T.transform a, T.transform b], init) := h1
+  rw [h1'] at hY0
+  simp only [Except.ok.injEq, Prod.mk.injEq, true_and] at hY0
+  have h3 : transformSolutionToOriginalDomain (okResult fun r => [Y0 r, Y1 r]) T false 2 a = some [d0, d1] :=
+    h2 (okResult fun r => [Y0 r, Y1 r]) (by simp [okResult, hY0])
+  have e := Option.some.inj ((hret a).symm.trans h3)
   rw [← hZ0] at e
   simp only [List.cons.injEq, and_true] at e
-  have := linear_ivp_unique₂ hab (fun x => evalCoeff x c0) (fun x => evalCoeff x c1) (fun x => evalCoeff x c2) f
+  have := linear_ivp_unique₂ hab (fun x => c0.at x) (fun x => c1.at x) (fun x => c2.at x) f
     hc0 hc1 hc2 (fun x hx => ha x (hab hx)) y0 y1 y2 Z0 Z1 z2 hy
     (fun x hx => ⟨(hdir x hx).1, hz2 x hx⟩) e.1 e.2 x hx
   rw [hret x, this.1, this.2]
